@@ -4,6 +4,7 @@ import (
 	"bytes"
 	"encoding/json"
 	"fmt"
+	"net"
 	"os"
 	"sort"
 	"strconv"
@@ -478,6 +479,33 @@ func TestC10Prop(t *testing.T) {
 					unsubOrCloseSeen = true
 					w.flags["close-with-subscriptions"] = true
 				}
+				fail(t, w, w.sync(what))
+			},
+			"abrupt-close-then-set": func(t *rapid.T) {
+				// a subscriber's connection is reset (no orderly shutdown) and a value changes right away: the
+				// accessory may or may not have noticed the reset yet; the other subscribers must get their events either way
+				c := pickCtl(true)
+				if c == nil || w.subsOf(c) == "" || rapid.IntRange(0, 4).Draw(t, "sometimes") > 0 {
+					t.Skip("needs a subscribed connection")
+				}
+				var ch *chr
+				for x, on := range c.subs {
+					if on && (ch == nil || x.name < ch.name) {
+						ch = x
+					}
+				}
+				v := rapid.SampledFrom(ch.values).Draw(t, "value")
+				what := fmt.Sprintf("c%d is reset, app sets %s=%v at once", idx(c), ch.name, v)
+				w.hist = append(w.hist, what)
+				if tc, ok := c.cl.Conn.(*net.TCPConn); ok {
+					tc.SetLinger(0)
+				}
+				c.cl.Close()
+				c.cl, c.subs, c.expected = nil, map[*chr]bool{}, nil
+				unsubOrCloseSeen = true
+				ch.ch.UpdateValue(v)
+				w.changed(ch, v, nil)
+				w.flags["reset-then-change"] = true
 				fail(t, w, w.sync(what))
 			},
 			"connect": func(t *rapid.T) {
